@@ -1,6 +1,54 @@
 import SigpyVerif.Model.Py
 import SigpyVerif.Model.Proto
+import SigpyVerif.Model.C05
 namespace SigpyVerif.Drv.C05
-/-- protocol handler for property C05 (tokens after the property id). -/
-def handle (_toks : List String) : String := "err bad-op"
+open SigpyVerif SigpyVerif.Proto
+
+def optList (toks : List String) (k : String) : Option (Option (List Int)) :=
+  match kv toks k with
+  | none => none
+  | some "none" => some none
+  | some s => (parseIntList? s).map some
+
+def flag (toks : List String) (k : String) : Option Bool :=
+  match kv toks k with
+  | some "1" => some true
+  | some "0" => some false
+  | _ => none
+
+def parseDT (s : String) : Gen.DT :=
+  if s == "complex64" then .complex64 else if s == "complex128" then .complex128 else .other
+
+def fmtDT : Gen.DT → String
+  | .complex64 => "complex64"
+  | .complex128 => "complex128"
+  | .other => "other"
+
+def fmtEntry : Option (Rat × Rat) → String
+  | none => "z"
+  | some (ph, mg) => s!"{fmtRat ph}:{fmtRat mg}"
+
+/-- protocol handler for property C05 (tokens after the property id).
+    `col inv= center= norm=ortho|none ish= osh=|none ax=|none dt= j=` → `ok <dtype> <oshape> | <entries>`;
+    an entry is `z` (zero) or `phase:mag²` (rationals). -/
+def handle (toks : List String) : String :=
+  match toks.head? with
+  | some "col" =>
+    let norm := match kv toks "norm" with
+      | some "ortho" => some true | some "none" => some false | _ => none
+    match flag toks "inv", flag toks "center", norm, (kv toks "ish").bind parseIntList?,
+          optList toks "osh", optList toks "ax", kv toks "dt", (kv toks "j").bind parseIntList? with
+    | some inv, some center, some ortho, some ish, some osh, some ax, some dt, some j =>
+      if j.length ≠ ish.length then "err bad-op" else
+      match C05.column ⟨inv, center, ortho, ish, osh, ax⟩ j with
+      | .ok (sh, col) =>
+        s!"ok {fmtDT (C05.outDtype inv (parseDT dt))} {fmtIntList sh} | {",".intercalate (col.map fmtEntry)}"
+      | .error .unsupported => "err unsupported"
+      | .error .badPipeline => "err bad-pipeline"
+    | _, _, _, _, _, _, _, _ => "err bad-op"
+  | some "exp" =>   -- closed per-axis exponent (used by the harness to cross-check the table)
+    match (kv toks "n").bind parseInt?, flag toks "center", (kv toks "k").bind parseInt?, (kv toks "j").bind parseInt? with
+    | some n, some c, some k, some j => s!"ok {C05.axisExp n c k j}"
+    | _, _, _, _ => "err bad-op"
+  | _ => "err bad-op"
 end SigpyVerif.Drv.C05
